@@ -40,9 +40,9 @@ TWINS = {
 
 # batches that are wired into checks (a batch under construction is simply not listed here yet)
 READY = ['core', 'eslice', 'op_eval', 'cfi_lookup', 'cfi_uctx', 'cfi_uctx_link', 'line_hdr', 'attrs', 'units', 'dwarf_ranges', 'index', 'relocate',
-         'conv', 'filter', 'wcore', 'wreloc', 'wop', 'wlists', 'wunit', 'wunit_layout', 'wcfi', 'wline', 'wline_insn', 'leb', 'macros', 'names', 'bases', 'wabbrev', 'filter_reserve']
+         'conv', 'filter', 'wcore', 'wreloc', 'wop', 'wlists', 'wunit', 'wunit_layout', 'wcfi', 'wline', 'wline_insn', 'leb', 'macros', 'names', 'bases', 'wabbrev', 'filter_reserve', 'wline_prog']
 # batch -> batches whose items it re-verifies completely (so the smaller one need not run as well)
-SUPERSEDES = {'op_eval': ['op'], 'dwarf_ranges': ['lists'], 'cfi_uctx_link': ['cfi_unwind'], 'line_hdr': ['line'], 'cfi_lookup': ['cfi_entries']}
+SUPERSEDES = {'wline_prog': ['wline_insn'], 'op_eval': ['op'], 'dwarf_ranges': ['lists'], 'cfi_uctx_link': ['cfi_unwind'], 'line_hdr': ['line'], 'cfi_lookup': ['cfi_entries']}
 # tags that only quote another property's vocabulary inside a batch (not obligations of that property)
 IGNORE = {('line_hdr', 'C03'), ('wline', 'C12'), ('filter', 'C01'), ('filter', 'C07'), ('wunit', 'C03'), ('wunit', 'C15'), ('conv', 'C05'), ('index', 'C09'), ('macros', 'C10'), ('names', 'C10'), ('wunit_layout', 'C16'), ('bases', 'C10'), ('wabbrev', 'C02'), ('filter_reserve', 'C02')}
 
@@ -68,7 +68,7 @@ ND = {
            'statement "reads back as the same forest": only the size model and per-kind emission are decided.',
     'C12': 'ConvertUnit*/entry-id maps, Expression::from body, ConvertLineProgram (needs the whole reader-side line machine), idempotence '
            'of a second conversion, corpus round trips.',
-    'C13': 'LineProgram::write header/tables/FileInfo emission (closure + IndexMap), add_file/add_directory identity (IndexMap).',
+    'C13': 'LineProgram::write header/tables/FileInfo emission and the two length patches (closure + IndexMap; only a syntactic check that they use the program\'s own encoding), add_file/add_directory identity (IndexMap).',
     'C14': 'CIE de-duplication (IndexSet), whole-table round trip.',
     'C15': 'Expression::write body (iterator adapters: assumed contract), evaluation equivalence (follows from decode equality).',
     'C16': 'table de-duplication (IndexSet), end-to-end attr_ranges round trip.',
